@@ -1186,7 +1186,7 @@ fn main() {
         }
         for v in 0..VARIANTS.len() {
             for &n in sizes.iter() {
-                // a sharded logic has two shards from 100 000 keys on: other shards may fail first, allow 8 passes
+                // a sharded logic has two shards from 100 000 keys on: other shards may fail first (an unsolvable shard reported before the duplicate costs a pass that does not count towards the four duplicate reports): allow 60 passes
                 for (si, &shape) in shapes.iter().enumerate() {
                     let multi = VARIANTS[v].sharded && n + shape.extra() >= 100_000;
                     if n >= 99_999 && si % 3 != v % 3 {
@@ -1202,7 +1202,7 @@ fn main() {
                         }
                         let mut s = mk(&mut r, "duplicates", n, cfg, Where::Keys, FaultKind::NoFault, Retry::None, Some(shape));
                         if multi {
-                            s.max_dup_passes = 8;
+                            s.max_dup_passes = 60;
                         }
                         run(&mut ctx, v, s);
                     }
@@ -1218,7 +1218,7 @@ fn main() {
                     let mut cfg = base_cfg(&mut r, false, true);
                     cfg.threads = if n <= 3 { pick(&mut r, &[Some(1), Some(2)]) } else { pick(&mut r, &[Some(1), Some(4), Some(16)]) };
                     let mut s = mk(&mut r, "duplicates", n, cfg, Where::Keys, FaultKind::NoFault, Retry::None, Some(DupShape::Multi(m)));
-                    s.max_dup_passes = 8;
+                    s.max_dup_passes = 60;
                     run(&mut ctx, v, s);
                 }
             }
@@ -1230,7 +1230,7 @@ fn main() {
                         let mut cfg = base_cfg(&mut r, false, true);
                         cfg.threads = pick(&mut r, &[Some(1), Some(4), Some(16)]);
                         let mut s = mk(&mut r, "duplicates", n, cfg, Where::Keys, FaultKind::NoFault, Retry::None, Some(shape));
-                        s.max_dup_passes = 8;
+                        s.max_dup_passes = 60;
                         run(&mut ctx, v, s);
                     }
                 }
@@ -1262,7 +1262,7 @@ fn main() {
             {
                 let cfg = Cfg { check_dups: true, threads: Some(t), seed: r.random::<u64>() >> 8, hint: pick(&mut r, &[Hint::Absent, Hint::Exact, Hint::Tenth]), ..Cfg::default() };
                 let mut s = mk(&mut r, "duplicates-more-shards-than-threads", n, cfg, Where::Keys, FaultKind::NoFault, Retry::None, Some(shape));
-                s.max_dup_passes = 8;
+                s.max_dup_passes = 60;
                 run(&mut ctx, v, s);
             }
         }
